@@ -70,6 +70,13 @@ class Stack:
         kw = dict(spa_identifier=session.SPA_ID.decode(), spa_name="Spa", spa_address=None) if configured else {}
         self.man = Man("00000000-1111-2222-3333-444444444444", **kw)
 
+    def inject_rferr(self):
+        """the home module reports a radio error on the current connection (unsolicited)"""
+        for tr in self.loop.endpoints:
+            if not tr.closed and not tr.kw.get("allow_broadcast"):
+                d = b"<PACKT><SRCCN>" + session.SPA_ID + b"</SRCCN><DESCN>" + self.man._client_id + b"</DESCN><DATAS>RFERR</DATAS></PACKT>"
+                tr.proto.datagram_received(d, vloop.SIMADDR)
+
     def pump_alive(self):
         pump = [t for t in self.man._tasks if t.get_name() == "SPAMAN:Sequence Pump"]
         # the tidy task drops finished tasks from the list: a missing pump is a dead pump
